@@ -4,6 +4,7 @@ import (
 	"bytes"
 	"fmt"
 	"sync"
+	"sync/atomic"
 	"testing"
 	"time"
 
@@ -24,7 +25,7 @@ type c17Row struct {
 type c17Case struct {
 	IntervalMs int
 	Rows       []c17Row
-	Mode       int // 0 primary only, 1 also a restored snapshot, 2 also a stream replica
+	Mode       int // 0 primary only, 1 also a restored snapshot, 2 also a stream replica, 3 a live stream follower without a cleanup of its own
 	Busy       bool
 	Big        bool // 16384 rows without TTL first; a slow transaction then inserts into the next block while the cleanup ticks
 	ConcExtend int  // number of goroutines that extend one long-TTL row concurrently (0 = none)
@@ -77,6 +78,17 @@ func c17Judge(c *column.Collection, rows []c17Tracked, what string) (overdue int
 	return overdue, nil
 }
 
+// countedLogger counts the commits it forwards.
+type countedLogger struct {
+	next commit.Logger
+	n    *int64
+}
+
+func (l countedLogger) Append(c commit.Commit) error {
+	atomic.AddInt64(l.n, 1)
+	return l.next.Append(c)
+}
+
 func runC17Case(cs c17Case) (nontrivial bool, err error) {
 	interval := time.Duration(cs.IntervalMs) * time.Millisecond
 	mk := func(w commit.Logger) *column.Collection {
@@ -87,12 +99,41 @@ func runC17Case(cs c17Case) (nontrivial bool, err error) {
 	}
 	var ch commit.Channel
 	var logger commit.Logger
-	if cs.Mode == 2 {
+	var sent, applied int64 // mode 3: commits emitted / replayed by the follower
+	if cs.Mode >= 2 {
 		ch = make(commit.Channel, 1<<16)
 		logger = ch
 	}
+	if cs.Mode == 3 {
+		logger = countedLogger{ch, &sent}
+	}
 	c := mk(logger)
 	defer c.Close()
+	// mode 3: a follower that replays every emitted commit as it arrives and never cleans up by
+	// itself (vacuum interval 1 h): whatever the primary's cleanup removes must reach it through
+	// the stream, and offsets re-used afterwards must not inherit anything there
+	var follower *column.Collection
+	var followMu sync.Mutex
+	var followErr error
+	if cs.Mode == 3 {
+		follower = column.NewCollection(column.Options{Vacuum: time.Hour})
+		follower.CreateColumn("id", column.ForUint64())
+		follower.CreateColumn("n", column.ForInt())
+		defer follower.Close()
+		fdone := make(chan struct{})
+		defer func() { close(ch); <-fdone }()
+		go func() {
+			defer close(fdone)
+			for cm := range ch {
+				followMu.Lock()
+				if err := follower.Replay(cm); err != nil && followErr == nil {
+					followErr = err
+				}
+				atomic.AddInt64(&applied, 1)
+				followMu.Unlock()
+			}
+		}()
+	}
 	var rows []c17Tracked
 	offsets := map[uint64]uint32{}
 	if cs.Big {
@@ -270,7 +311,15 @@ func runC17Case(cs c17Case) (nontrivial bool, err error) {
 			}
 		}()
 	}
-	defer func() { close(stop); wg.Wait() }()
+	stopped := false
+	stopBusy := func() {
+		if !stopped {
+			stopped = true
+			close(stop)
+			wg.Wait()
+		}
+	}
+	defer stopBusy()
 	all := map[string]*column.Collection{"primary": c}
 	for k, v := range derived {
 		all[k] = v
@@ -293,6 +342,10 @@ func runC17Case(cs c17Case) (nontrivial bool, err error) {
 	minWait := 12 * interval
 	start := time.Now()
 	for {
+		// taken BEFORE the rows are judged: once now is past every deadline, each overdue row that
+		// is still present counts as pending (a deadline passing between the judgement and a later
+		// clock reading would end the loop with that row still to be removed)
+		now := time.Now()
 		pending := 0
 		for name, col := range all {
 			n, jerr := c17Judge(col, rows, name)
@@ -301,7 +354,6 @@ func runC17Case(cs c17Case) (nontrivial bool, err error) {
 			}
 			pending += n
 		}
-		now := time.Now()
 		pastAll := lastDeadline.IsZero() || now.After(lastDeadline)
 		if pending == 0 && pastAll && now.Sub(start) >= minWait {
 			break
@@ -317,6 +369,65 @@ func runC17Case(cs c17Case) (nontrivial bool, err error) {
 			survivors++
 		}
 	}
+	if follower != nil {
+		stopBusy()
+		compare := func(when string) error {
+			// The primary is quiescent apart from a cleanup commit that may still be in progress: a
+			// deleted row leaves the fill-list (and thus every reader's selection) before its commit
+			// reaches the logger. A full Range takes every block's read latch once and therefore
+			// waits for such a commit to finish (the logger is called under the latch). No deadline
+			// within 30 s is left afterwards, so nothing else will be emitted: wait for the drain.
+			c17Present(c)
+			for i := 0; atomic.LoadInt64(&applied) != atomic.LoadInt64(&sent) && i < 10000; i++ {
+				time.Sleep(time.Millisecond)
+			}
+			followMu.Lock()
+			defer followMu.Unlock()
+			if followErr != nil {
+				return fmt.Errorf("stream follower: Replay: %v", followErr)
+			}
+			dump := func(col *column.Collection) map[uint64]string {
+				out := map[uint64]string{}
+				col.Query(func(txn *column.Txn) error {
+					id, ex := txn.Uint64("id"), txn.Int64("expire")
+					return txn.Range(func(idx uint32) {
+						v, _ := id.Get()
+						e, ok := ex.Get()
+						out[v] = fmt.Sprintf("offset %d deadline %d,%v", idx, e, ok)
+					})
+				})
+				return out
+			}
+			p, f := dump(c), dump(follower)
+			for id, v := range f {
+				if pv, ok := p[id]; !ok {
+					return fmt.Errorf("%s: the stream follower (replays every emitted commit, no cleanup of its own) still holds row id=%d (%s) which is gone from the primary: its removal never reached the stream", when, id, v)
+				} else if pv != v {
+					return fmt.Errorf("%s: row id=%d: primary %s, stream follower %s", when, id, pv, v)
+				}
+			}
+			for id, v := range p {
+				if _, ok := f[id]; !ok {
+					return fmt.Errorf("%s: row id=%d (%s) of the primary is missing on the stream follower", when, id, v)
+				}
+			}
+			if c.Count() != follower.Count() {
+				return fmt.Errorf("%s: Count: primary %d, stream follower %d", when, c.Count(), follower.Count())
+			}
+			return nil
+		}
+		if err := compare("after the primary's cleanup removed the expired rows"); err != nil {
+			return false, err
+		}
+		// rows without a TTL re-use the offsets of the expired ones
+		for i := 0; i < expiring+2; i++ {
+			id := uint64(5<<32 + i)
+			c.Insert(func(row column.Row) error { row.SetUint64("id", id); return nil })
+		}
+		if err := compare("after rows without a TTL re-used the offsets of expired rows"); err != nil {
+			return false, err
+		}
+	}
 	return expiring > 0 && survivors > 0, nil
 }
 
@@ -325,7 +436,7 @@ func TestC17(t *testing.T) {
 	rapid.Check(t, func(t *rapid.T) {
 		cases := make([]c17Case, par)
 		for i := range cases {
-			cs := c17Case{IntervalMs: rapid.SampledFrom([]int{1, 5, 20}).Draw(t, "interval"), Mode: rapid.IntRange(0, 2).Draw(t, "mode"), Busy: rapid.Bool().Draw(t, "busy")}
+			cs := c17Case{IntervalMs: rapid.SampledFrom([]int{1, 5, 20}).Draw(t, "interval"), Mode: rapid.IntRange(0, 3).Draw(t, "mode"), Busy: rapid.Bool().Draw(t, "busy")}
 			cs.Big = rapid.IntRange(0, 7).Draw(t, "big") == 0
 			if rapid.IntRange(0, 2).Draw(t, "conc-extend") == 0 {
 				cs.ConcExtend = rapid.IntRange(2, 6).Draw(t, "extenders")
